@@ -4,6 +4,7 @@
    the expiry of whatever is still outstanding; `run_put` returns the outcome delivered to the caller
    and the number of events consumed before it. *)
 From MLV Require Import model.Bytes model.PutQuery model.Check08 proofs.PutQueryProofs.
+From MLV Require model.Calls proofs.CallsProofs.
 Open Scope N_scope.
 
 (* Ok only if an acknowledgement was received before completion; CasFailed / NotMostRecent only for a
@@ -33,6 +34,17 @@ Proof. vm_compute. reflexivity. Qed.
 Theorem C08_expiry_terminates : forall evs st k, pq_sent (fst st) <> [] -> In EvExpire evs -> prun st evs k <> None.
 Proof. exact expiry_terminates. Qed.
 
+(* node level (Calls.v: the bookkeeping of Actor::tick): a lookup of the put's target that ends while the put is in its
+   store phase - somebody else's get, found done in this iteration, with or without token-bearing nodes - leaves the put
+   and the callers parked on it alone: no outcome is produced for them by that lookup *)
+Theorem C08_started_put_ignores_a_finished_lookup : forall s t ok p,
+  MLV.model.Calls.find_put t (MLV.model.Calls.puts s) = Some p -> MLV.model.Calls.pe_started p = true ->
+  let r := MLV.model.Calls.step_tick s [] [(t, ok)] in
+  MLV.model.Calls.puts (fst r) = MLV.model.Calls.puts s /\ MLV.model.Calls.psend (fst r) = MLV.model.Calls.psend s /\
+  forall c o, ~ In (MLV.model.Calls.OPut c o) (snd r).
+Proof. exact MLV.proofs.CallsProofs.started_put_ignores_a_finished_lookup. Qed.
+
+Print Assumptions C08_started_put_ignores_a_finished_lookup.
 Print Assumptions C08_outcome_sound.
 Print Assumptions C08_no_ack_never_ok.
 Print Assumptions C08_three_hundred_acks.
